@@ -662,6 +662,10 @@ func (fr *Frame) contractCall(fc *FuncContract, callee *ssa.Function, args []*Va
 	if fc.Trusted {
 		vc.externals["trusted contract "+name] = true
 	}
+	if vc.usedContracts == nil {
+		vc.usedContracts = map[string]*FuncContract{}
+	}
+	vc.usedContracts[fc.PkgPath+" "+fc.Key] = fc
 	return res
 }
 
